@@ -159,10 +159,10 @@ with tr_stat (s : stat) (flv slv : N) (g : ign) {struct s} : list action * ign :
       (map (fun b g0 => let (a2, g2) := tr_block b flv (slv + 1) (set_inif g0 false) in (APush :: a2 ++ [APop], g2)) bs) g
   | SForNum n vl e1 e2 e3 b _ =>
     let (a1, g1) := tr_exp e1 None flv g in
-    let (a3, g2) := tr_exp e3 None flv g1 in        (* StepExp before LimitExp *)
-    let (a2, g3) := tr_exp e2 None flv g2 in
+    let (a2, g2) := tr_exp e2 None flv g1 in        (* init, limit, step (fix C05-for-step-order; before: step first) *)
+    let (a3, g3) := tr_exp e3 None flv g2 in
     let (a4, g4) := tr_block b flv (slv + 1) g3 in
-    (APush :: a1 ++ a3 ++ a2 ++ AAdd (param_var n vl) :: a4 ++ [APop], g4)
+    (APush :: a1 ++ a2 ++ a3 ++ AAdd (param_var n vl) :: a4 ++ [APop], g4)
   | SForIn ns ls es b _ =>
     let (a1, g1) := thread (fun x g0 => tr_exp x None flv g0) es g in
     let (a2, g2) := tr_block b flv (slv + 1) g1 in
